@@ -201,7 +201,7 @@ def explore(
     timeout: float = 60.0,
     per_path_timeout: float = 20.0,
     max_paths: int = 10**9,
-    max_violations: int = 3,
+    max_violations: int = 10,
     sample_limit: int = 6,
     seed: int = 0,
     stop_on_violation: bool = False,
